@@ -295,8 +295,11 @@ def exec_accepted(case):
     day = ('None' if c['day'] is None
            else 'datetime.date({}, {}, {})'.format(*c['day']))
     src = (
-        'import datetime\nimport dawgie\n\n\ndef events():\n'
-        f'    return [dawgie.EVENT(dawgie.ALG_REF(None, None), '
+        'import datetime\nimport dawgie\n\n\n'
+        'class Impl:\n    def name(self):\n        return "alg"\n\n\n'
+        'def task(prefix=None, ps_hint=0, runid=-1, target="__none__"):\n'
+        '    return None\n\n\ndef events():\n'
+        f'    return [dawgie.EVENT(dawgie.ALG_REF(task, Impl()), '
         f'dawgie.MOMENT({c["boot"]!r}, {day}, {c["dom"]!r}, {c["dow"]!r}, '
         f'{t}))]\n'
     )
@@ -393,6 +396,7 @@ def exec_history(case):
     reactor.callLater = clock.tc.callLater
     s = sim.Sim(case['spec'], case['targets'], (), auto_workers=3, clock=clock)
     fired = []  # (instant, tag, pending targets right after the firing)
+    reloads = []
     completed = {}  # tag -> instants at which a fired run had finished
 
     def spy_defer():
@@ -446,6 +450,13 @@ def exec_history(case):
                 clock.advance(op[1])
             elif op[0] == 'tgt':
                 s.add_target(op[1])
+            elif op[0] == 'reload':
+                # the AE is reloaded in the same process (update): new module,
+                # factory and algorithm objects for the same events
+                reloads.append(clock.now)
+                s.reload_engine()
+                sched.periodics(s.eng.factories[dawgie.Factories.events])
+                out.label('engine-reloaded')
             ok = settle(str(op))
         end = clock.now
         # ---- oracle over the firing log
@@ -477,7 +488,8 @@ def exec_history(case):
                 out.fail('boot/not-fired-at-boot',
                          f'{tag}: fired {[f[0].isoformat() for f in mine]}')
             if len(mine) > 1 and not others:
-                out.fail('boot/fired-more-than-once',
+                out.fail('boot/fired-more-than-once'
+                         + ('@after-reload' if reloads else ''),
                          f'{tag} has only boot events, fired '
                          f'{[f[0].isoformat() for f in mine]}')
             out.label('has-boot-event')
@@ -567,6 +579,7 @@ def _histories(draw):
              7 * 86400, 8 * 86400, 31 * 86400])).map(list),
         st.tuples(st.just('adv'), st.integers(1, 40 * 86400)).map(list),
         st.tuples(st.just('tgt'), st.integers(0, 3)).map(list),
+        st.just(['reload']),
     )
     return {
         'spec': spec,
